@@ -77,12 +77,18 @@ pub fn run(report: &Report, thorough: bool) -> Evidence {
         plans.push((real_db(), "aser", if thorough { 6 } else { 4 }, true, Some(store)));
         // dictionary suggestions off (single-string mode): the last plan; marked by the alphabet "ak(.:`"
         plans.push((tiny.clone(), "ak(.:`", d - 1, false, None));
+        // letter case: the memo must not confuse words that differ in the case of a letter (real data)
+        plans.push((real_db(), "tTa", if thorough { 5 } else { 4 }, false, None));
         let mut total = HistStats::default();
         let ref_runs = AtomicU64::new(0);
         for (pi, (db, alpha, depth, english, init_store)) in plans.iter().enumerate() {
             let mut keys: Vec<Ev> = alpha.chars().map(Ev::ch).collect();
             // a key without a character (keypad Enter): changes nothing, so it must not change the suggestion either
             keys.push(Ev::key(crate::keys::by_name("VC_KP_ENTER").unwrap().code));
+            // the same character from another key: the number pad's full stop
+            if alpha.contains('.') {
+                keys.push(Ev::key(crate::keys::by_name("VC_KP_DECIMAL").unwrap().code));
+            }
             let mut files = BTreeMap::new();
             if let Some(s) = init_store {
                 files.insert("phonetic-candidate-selection.json".to_string(), s.to_string());
@@ -94,7 +100,7 @@ pub fn run(report: &Report, thorough: bool) -> Evidence {
                 static TWIN: std::cell::RefCell<Option<(String, Ctx)>> = const { std::cell::RefCell::new(None) };
                 static REF: std::cell::RefCell<HashMap<String, Result<Rend, String>>> = std::cell::RefCell::new(HashMap::new());
             }
-            let st = histgraph::bfs(
+            let st = histgraph::bfs_shadow(
                 |w| {
                     let mut o = o.clone();
                     o.xdg = scratch_xdg(&format!("c05-{}-{}", pi, w));
@@ -226,6 +232,7 @@ pub fn run(report: &Report, thorough: bool) -> Evidence {
                     }
                 },
                 |_| true,
+                |h| format!("composing:{}", typed_text(h)),
             );
             total.states += st.states;
             total.transitions += st.transitions;
